@@ -430,7 +430,7 @@ impl<'a> Run<'a> {
         let input = format!("recipe {text:?} with the {} converter", c.name);
         let r = guarded(|| {
             let res = c.parser.parse(&text);
-            let warns = res.report().warnings().filter(|w| w.message.starts_with("Unsupported value for key")).count();
+            let warns = res.report().warnings().filter(|w| crate::render::diag_kind(w) == "std-unsupported-value").count();
             let errors = res.report().errors().count();
             let out = res.output().map(|rec| (rec.metadata.map.clone(), rec.servings().map(|s| s.to_vec()),
                 rec.metadata.tags().is_some(), rec.metadata.servings().is_some(), rec.metadata.time(&c.conv), rec.metadata.locale().is_some(),
